@@ -31,6 +31,7 @@ package walletdb
 // under(id, root): bucket id lies strictly below bucket root in the bucket tree
 //@ spec func under(id Int, root Int) Bool
 //@ axiom under_sub: forall p Int, k Bytes, r Int :: {under(sub(p, k), r)} under(sub(p, k), r) == (p == r || under(p, r))
+//@ axiom under_child: forall p Int, k Bytes :: {sub(p, k)} under(sub(p, k), p)
 //@ axiom under_root: forall r Int :: {under(0, r)} !under(0, r)
 //@ axiom sub_not_root: forall p Int, k Bytes :: {sub(p, k)} sub(p, k) != 0
 //@ macro LIVE(b, name) = select(DBlive, sub(bid(b), name))
